@@ -26,10 +26,11 @@ from fractions import Fraction
 from .. import core, gen
 
 # ------------------------------------------------------------------------------------------------------------
-# SWITCH: lattice types (|LATT N|) the generator uses. The library's operator list is incomplete for centred
-# lattices (property C11, being repaired separately); until that has landed only primitive settings are
-# generated. Set to (1, 2, 3, 4, 5, 6, 7) to switch the centred settings of SETTINGS on.
-LATTICE_TYPES = (1,)
+# SWITCH: lattice types (|LATT N|) the generator uses: 1 = P, 2 = I, 3 = R (obverse, hexagonal axes), 4 = F, 5 = A,
+# 6 = B, 7 = C. Centred settings are on since the C11 repair (complete operator list) has landed; the quick tier
+# visits every primitive setting and QUICK_CENTRED randomly chosen centred ones per run, the thorough tier all.
+LATTICE_TYPES = (1, 2, 3, 4, 5, 6, 7)
+QUICK_CENTRED = 4
 # ------------------------------------------------------------------------------------------------------------
 
 BOX = 3
@@ -351,12 +352,40 @@ def lib_op_min(orc, op, x1, x2):
     return None if m is None else math.sqrt(m)
 
 
+DRIVER_TIMEOUT = 180   # seconds per batch of <= 50 structures (a batch takes well under a second)
+
+
+def driver_batch(ctx, reqs):
+    """ctx.driver.batch with a wall-clock guard: a driver that does not answer is killed (subprocess.run kills the
+    child on timeout) and reported as an infrastructure error, never left running"""
+    import json
+    import subprocess
+    data = '\n'.join(json.dumps(r, separators=(',', ':')) for r in reqs) + '\n'
+    try:
+        p = subprocess.run([ctx.driver.exe], input=data, stdout=subprocess.PIPE, stderr=subprocess.PIPE, text=True, timeout=DRIVER_TIMEOUT)
+    except subprocess.TimeoutExpired:
+        raise core.LeanError(f'C13: driver did not answer {len(reqs)} requests within {DRIVER_TIMEOUT} s (killed)')
+    if p.returncode != 0:
+        raise core.LeanError(f'driver exit {p.returncode}: {p.stderr[-2000:]}')
+    lines = p.stdout.splitlines()
+    if len(lines) != len(reqs):
+        raise core.LeanError(f'driver answered {len(lines)} lines for {len(reqs)} requests; stderr: {p.stderr[-2000:]}')
+    out = []
+    for ln, rq in zip(lines, reqs):
+        j = json.loads(ln)
+        if isinstance(j, dict) and 'driver_error' in j:
+            raise core.LeanError(f'driver error {j["driver_error"]} on request {json.dumps(rq)[:500]}')
+        out.append(core.dec(j))
+    ctx.driver.lines += len(reqs)
+    return out
+
+
 _consts_cache = {}
 
 
 def constants(ctx):
     if 'c' not in _consts_cache:
-        _consts_cache['c'] = ctx.driver.one(dict(p='C13', op='consts'))
+        _consts_cache['c'] = driver_batch(ctx, [dict(p='C13', op='consts')])[0]
     return _consts_cache['c']
 
 
@@ -372,7 +401,7 @@ def evaluate(ctx, cases, stream=None):
         impls.append(obs)
         orcs.append(orc)
         reqs.append(request(case, obs.get('ops', []), orc['group']))
-    answers = ctx.driver.batch(reqs)
+    answers = driver_batch(ctx, reqs)
     for case, obs, orc, ans in zip(cases, impls, orcs, answers):
         judge(ctx, case, obs, orc, ans)
 
@@ -620,7 +649,7 @@ WITNESSES = [
 
 
 def run(ctx):
-    ctx.rule = ('generated structures: 2..12 atoms (C N O H D S Cl F P Si Br Fe B Zn; PART 0/1/2/-1), primitive settings '
+    ctx.rule = ('generated structures: 2..12 atoms (C N O H D S Cl F P Si Br Fe B Zn; PART 0/1/2/-1), settings '
                 + ', '.join(s[0] for s in SETTINGS if abs(s[2]) in LATTICE_TYPES) +
                 ' with random cells of perpendicular spacing >= 7 A; atoms placed as bonded / non-bonded neighbours of earlier atoms or of '
                 'their symmetry images, on and near special positions, as disorder partners, around the 5.3 A cut; distinct by '
@@ -628,11 +657,16 @@ def run(ctx):
     ctx.assumptions = ['distances compared at 1e-9 (float rounding of the implementation is not covered by the exact-arithmetic theorems)',
                        'pairs outside the domain are not compared: true distance >= half the smallest spacing, images in (1e-6, 0.05) A, '
                        'within 2e-3 of the 5.3 cut, within 1e-3 of the bond limit, identity contact within 3e-4 above another operator\'s',
-                       f'lattice types generated: {LATTICE_TYPES} (centred settings wait for C11)']
+                       f'lattice types generated: {LATTICE_TYPES}; quick tier: all primitive settings + {QUICK_CENTRED} random centred ones']
     radius = lib_constants()
     n = ctx.budget(300, 5000)
     cases = [dict(w) for w in WITNESSES]
-    settings = [s for s in SETTINGS if abs(s[2]) in LATTICE_TYPES]
+    settings = [s for s in SETTINGS if abs(s[2]) == 1 and 1 in LATTICE_TYPES]
+    centred = [s for s in SETTINGS if abs(s[2]) != 1 and abs(s[2]) in LATTICE_TYPES]
+    if ctx.tier == 'thorough' or ctx.escalated:
+        settings += centred
+    else:
+        settings += ctx.rng.sample(centred, min(QUICK_CENTRED, len(centred)))
     for k in range(n):
         # every setting in turn, so that even the quick tier visits all of them
         st = [settings[k % len(settings)]]
